@@ -68,7 +68,7 @@ func checkC04(r *Run) {
 	r.checkCallers("C04-R1", "visor.Blockchain.ExecuteBlock", "visor.Visor.executeSignedBlockUnsafe", "visor.addGenesisBlock", "visor.addGenesisBlockToVisor")
 	r.checkCallers("C04-R1", "visor/blockdb.Blockchain.AddBlock", "visor.Blockchain.ExecuteBlock")
 	// R2: no header mutation on the execution path
-	for _, f := range []string{"visor.Visor.executeSignedBlock", "visor.Visor.executeSignedBlockUnsafe", "visor.Blockchain.ExecuteBlock", "visor.Blockchain.processBlock", "visor/blockdb.Blockchain.AddBlock", "visor/blockdb.Blockchain.processBlock"} {
+	for _, f := range []string{"visor.Visor.executeSignedBlock", "visor.Visor.executeSignedBlockUnsafe", "visor.Blockchain.ExecuteBlock", "visor.Blockchain.processBlock", "visor/blockdb.Blockchain.AddBlock"} {
 		fn := r.fn("C04-R2", f)
 		if fn == nil {
 			continue
@@ -119,13 +119,15 @@ func checkC04(r *Run) {
 	r.RequireOnSuccess("C04-R3", "visor/blockdb.Blockchain.AddBlock",
 		req("block tree insert", "ok(iface:visor/blockdb.BlockTree.AddBlock($0.tree, $1, $2.Block))"),
 		req("signature stored under the header hash", "ok(iface:visor/blockdb.BlockSigs.Add($0.sigs, $1, coin.Block.HashHeader($2.Block), $2.Sig))"),
-		req("unspent pool and head pointer updated", "ok(visor/blockdb.Blockchain.processBlock($0, $1, $2))"))
+		req("unspent pool updated", "ok(iface:visor/blockdb.UnspentPooler.ProcessBlock($0.unspent, $1, $2))"),
+		req("head pointer moved to the block", "ok(iface:visor/blockdb.ChainMeta.SetHeadSeq($0.meta, $1, $2.Block.Head.BkSeq))"))
 	ruleTxErrorDiscipline(r, "C04-R4")
 }
 
 func checkC06(r *Run) {
 	r.Explain = "C06: (R1) the unconfirmed bucket is written only by unconfirmedTxns.put/delete, whose callers are enumerated; (R2) user submissions pass user + soft + hard constraints before injection; (R3) InjectTransaction inserts only when verification returned nil or a soft error, and a known hash is updated not duplicated; (R4) after a block is executed its transactions are removed from the pool and history is updated before success; (R5) RemoveInvalid removes exactly hard-violating txns; Refresh writes every re-checked txn back with IsValid=1 iff the verifier returned nil."
 	r.NotDec = "flag/pool contents for a concrete interleaving"
+	ruleNoCrossedConfig(r, "C06-R0")
 	// R1
 	n := 0
 	for _, w := range r.P.BucketWrites() {
